@@ -465,6 +465,61 @@ def extract_sites() -> dict:
     }
 
 
+# ------------------------------------------------------------------ inventory of callback-taking constructors
+def _mod_key(p) -> str:
+    """`v17` for ai.onnx modules (the key used in `table`), the dotted path below `opset` otherwise."""
+    rel = p.relative_to(REPO / "src/spox/opset").with_suffix("")
+    parts = list(rel.parts)
+    return parts[-1] if parts[:2] == ["ai", "onnx"] and len(parts) == 3 else ".".join(parts)
+
+
+def extract_inventory() -> dict:
+    """Over *every* module below src/spox/opset (ai.onnx and ai.onnx.ml, all versions):
+    * `callableParams`: (module, function, sorted names of its parameters annotated `Callable[...]`) for every
+      top-level function that has such a parameter — what a control-flow constructor is, by signature;
+    * `attrWiring`: for each of them the `X=AttrGraph(<graph var>, name="<Y>")` attribute bindings as
+      (X, Y, callback whose subgraph(...) result <graph var> is), `?` where not of that form."""
+    cps, wiring, problems = [], [], []
+    for p in sorted((REPO / "src/spox/opset").rglob("*.py")):
+        try:
+            mod = ast.parse(p.read_text())
+        except Exception as e:  # noqa: BLE001
+            problems.append(f"{p.name}: {type(e).__name__}: {e}")
+            cps.append((_mod_key(p), "<unreadable>", ["?"]))
+            continue
+        mk = _mod_key(p)
+        for fn in mod.body:
+            if not isinstance(fn, (ast.FunctionDef, ast.AsyncFunctionDef)):
+                continue
+            a = fn.args
+            allp = a.posonlyargs + a.args + a.kwonlyargs + ([a.vararg] if a.vararg else []) + ([a.kwarg] if a.kwarg else [])
+            cbs = sorted(x.arg for x in allp if x.annotation is not None and "Callable" in ast.dump(x.annotation))
+            calls_sub = any(_is_subgraph_call(n) for n in ast.walk(fn))
+            if not cbs and not calls_sub:
+                continue
+            cps.append((mk, fn.name, cbs))
+            graph_of = {}
+            for st in fn.body:
+                tgt = val = None
+                if isinstance(st, ast.AnnAssign) and isinstance(st.target, ast.Name):
+                    tgt, val = st.target.id, st.value
+                elif isinstance(st, ast.Assign) and len(st.targets) == 1 and isinstance(st.targets[0], ast.Name):
+                    tgt, val = st.targets[0].id, st.value
+                if tgt and val is not None and _is_subgraph_call(val) and len(val.args) == 2 and isinstance(val.args[1], ast.Name):
+                    graph_of[tgt] = val.args[1].id
+            w = []
+            for n in ast.walk(fn):
+                if isinstance(n, ast.keyword) and isinstance(n.value, ast.Call) and (
+                        (isinstance(n.value.func, ast.Name) and n.value.func.id == "AttrGraph")
+                        or (isinstance(n.value.func, ast.Attribute) and n.value.func.attr == "AttrGraph")):
+                    c = n.value
+                    g = c.args[0].id if c.args and isinstance(c.args[0], ast.Name) else "?"
+                    nm = next((k.value.value for k in c.keywords if k.arg == "name" and isinstance(k.value, ast.Constant)), "?")
+                    w.append((n.arg or "?", str(nm), graph_of.get(g, "?")))
+            wiring.append((mk, fn.name, w))
+    return {"callableParams": cps, "attrWiring": wiring, "problems": problems}
+
+
 # ------------------------------------------------------------------ generate
 def generate() -> dict:
     mods = extract_modules()
@@ -525,7 +580,27 @@ def generate() -> dict:
         "end Generated.CallbackSites\n",
     ]
     write_if_changed(GEN / "CallbackSites.lean", "\n".join(sl))
-    return {"modules": mods, "generator": gen, "resolves": resolves, "sites": sites}
+    try:
+        inv = extract_inventory()
+    except Exception as e:  # noqa: BLE001 - degrade to an entry whose obligation fails
+        inv = {"callableParams": [("?", "<extraction failed>", ["?"])], "attrWiring": [], "problems": [f"{type(e).__name__}: {e}"]}
+    il = [
+        HEADER.format(src="src/spox/opset/**/*.py", tool="translator/subgraph_specs.py"),
+        "namespace Generated.SubgraphInventory\n",
+        "/-- (module, function, parameters annotated `Callable`) for every top-level function of every opset\n    module that takes a callback or calls `subgraph` -/",
+        "def callableParams : List (String × String × List String) :=\n  "
+        + lean_list([f"({lean_str(m)}, {lean_str(f)}, {lean_list([lean_str(x) for x in ps])})" for m, f, ps in inv["callableParams"]])
+        + "\n",
+        "/-- (module, function, [(attribute keyword, `name=` of the AttrGraph, callback the graph was traced from)]) -/",
+        "def attrWiring : List (String × String × List (String × String × String)) :=\n  "
+        + lean_list([
+            f"({lean_str(m)}, {lean_str(f)}, {lean_list([f'({lean_str(a)}, {lean_str(b)}, {lean_str(c)})' for a, b, c in w])})"
+            for m, f, w in inv["attrWiring"]])
+        + "\n",
+        "end Generated.SubgraphInventory\n",
+    ]
+    write_if_changed(GEN / "SubgraphInventory.lean", "\n".join(il))
+    return {"modules": mods, "generator": gen, "resolves": resolves, "sites": sites, "inventory": inv}
 
 
 if __name__ == "__main__":
